@@ -46,7 +46,9 @@ def configs(tier, seed=1):
     cs.append(("ctor", dict(MaxObj=1, MaxOps=3, MaxClose=2, MaxPlug=0, Kinds=kinds(ALL_KINDS), WithFail="TRUE",
                             WithUninj="FALSE", WithGc="FALSE", WithRehs="TRUE",
                             TruncK="{" + ", ".join(map(str, cuts)) + "}" if q else "{" + ", ".join(str(k) for k in range(1, 129)) + "}"), 2))
-    cs.append(("close", dict(MaxObj=2, MaxOps=5 if q else 7, MaxClose=2 if q else 3, MaxPlug=1, Kinds=kinds(ALL_KINDS), WithFail="FALSE",
+    # quick: one representative of the kinds that share file.Close (udp, acc, file behave like tcp here; all 13 in the thorough tier)
+    cs.append(("close", dict(MaxObj=2, MaxOps=5 if q else 7, MaxClose=2 if q else 3, MaxPlug=1,
+                             Kinds=kinds([k for k in ALL_KINDS if k not in ("udp", "acc", "file")] if q else ALL_KINDS), WithFail="FALSE",
                              WithUninj="FALSE", WithGc="FALSE", WithRehs="FALSE", TruncK="{1}"), 4))
     cs.append(("gc", dict(MaxObj=1, MaxOps=6 if q else 8, MaxClose=1, MaxPlug=0, Kinds=kinds(ALL_KINDS), WithFail="FALSE",
                           WithUninj="FALSE", WithGc="TRUE", WithRehs="FALSE", TruncK="{1}"), 2))
@@ -55,7 +57,7 @@ def configs(tier, seed=1):
                            WithFail="FALSE", WithUninj="FALSE", WithGc="TRUE", WithRehs="FALSE", TruncK="{1}"), 4))
     if not q:
         cs.append(("close3", dict(MaxObj=3, MaxOps=6, MaxClose=2, MaxPlug=1,
-                                  Kinds=kinds(["timer", "tcp", "lst", "pkt", "peer", "adp", "ws"]), WithFail="FALSE",
+                                  Kinds=kinds(["timer", "tcp", "lst", "adp", "ws"]), WithFail="FALSE",
                                   WithUninj="FALSE", WithGc="FALSE", WithRehs="TRUE", TruncK="{1}"), 6))
         cs.append(("ctor2", dict(MaxObj=2, MaxOps=3, MaxClose=1, MaxPlug=0, Kinds=kinds(ALL_KINDS), WithFail="TRUE",
                                  WithUninj="FALSE", WithGc="FALSE", WithRehs="TRUE", TruncK="{60}"), 4))
